@@ -106,8 +106,8 @@ func (v *Vue) evalTemplate(ctx VueContext, nodes []*html.Node, componentData map
 			key := attr.Key
 			val := strings.TrimSpace(attr.Val)
 
-			// Skip directive attributes
-			if strings.HasPrefix(key, "v-") {
+			// Skip directive attributes (v-bind:name is the long spelling of :name, handled below)
+			if strings.HasPrefix(key, "v-") && !strings.HasPrefix(key, "v-bind:") {
 				continue
 			}
 
@@ -145,6 +145,9 @@ func (v *Vue) evalTemplate(ctx VueContext, nodes []*html.Node, componentData map
 			}
 			if strings.HasPrefix(key, "v-bind:") {
 				boundName := key[7:]
+				if boundName == "require" || boundName == "required" {
+					continue
+				}
 				pipe := parsePipeExpr(val)
 				result, err := v.evalPipe(ctx, pipe)
 				if err == nil {
